@@ -186,7 +186,7 @@ def _run_osc(cfg, rec):
                     items.append(("column <osc>_sin = Im exp(-gamma t - i omega t)",
                                   zreal(matrix[a, labels.index(f"o{i}_sin")]) == im, "basis:osc:sin-column"))
         rec.check_all(ctx, items, wit)
-        rec.sample({"labels": labels, "entry": str(zreal(matrix[0, 0]))[:120]})
+        rec.want_sample() and rec.sample({"labels": labels, "entry": str(zreal(matrix[0, 0]))[:120]})
     rec.validate("osc", {}, {"ok": True})
 
 
@@ -244,7 +244,7 @@ def _run_osc_irf(cfg, rec):
             # the code evaluated the convolution at t0 although t0 is > 5 sigma before the effective position
             _, msg, vals, t = out
             inside0 = [c for c in ctx.pc]
-            rec.sample({"path": "needs complex erf", "pc": [str(c)[:100] for c in inside0][:4]})
+            rec.want_sample() and rec.sample({"path": "needs complex erf", "pc": [str(c)[:100] for c in inside0][:4]})
             rec.check(ctx, "a time point more than 5 sigma before the effective IRF position (centre - shift_i) is treated as before the pulse",
                       z3.BoolVal(False), "basis:osc-irf:effective-position", wit)
             continue
@@ -255,7 +255,7 @@ def _run_osc_irf(cfg, rec):
             v = matrix[idx]
             items.append(("oscillation columns vanish before the pulse", core.cross_eq(zreal(v), z3.RealVal(0)), "basis:osc-irf:not-vanishing"))
         rec.check_all(ctx, items, wit)
-        rec.sample({"labels": list(labels), "value_before_pulse": str(zreal(matrix.flat[0]))[:80]})
+        rec.want_sample() and rec.sample({"labels": list(labels), "value_before_pulse": str(zreal(matrix.flat[0]))[:80]})
     rec.validate("osc_irf", {}, {"ok": True})
 
 
@@ -316,7 +316,7 @@ def _run_artifact(cfg, rec):
                     items.append(("artifact column k = k-th time derivative of the IRF Gaussian at centre - shift_i with own-or-IRF width",
                                   core.cross_eq(zreal(got), want[k]), f"basis:artifact:column{k + 1}"))
         rec.check_all(ctx, items, wit)
-        rec.sample({"labels": list(labels), "entry": str(zreal(matrix.flat[0]))[:120]})
+        rec.want_sample() and rec.sample({"labels": list(labels), "entry": str(zreal(matrix.flat[0]))[:120]})
     rec.validate("artifact", {}, {"ok": True})
 
 
@@ -390,7 +390,7 @@ def _run_shape(cfg, rec):
                     items.append(("skewed Gaussian is 0 where theta <= 0", y[idx] == 0, "basis:shape:skewed-mask"))
         for n_, g, fp in items:
             rec.check(ctx, n_, g, fp, wit, extra=half)
-        rec.sample({"shape": kind_, "pc": [str(c)[:80] for c in ctx.pc][:4], "value_at_location": str(y[0])[:100]})
+        rec.want_sample() and rec.sample({"shape": kind_, "pc": [str(c)[:80] for c in ctx.pc][:4], "value_at_location": str(y[0])[:100]})
     rec.validate("shape", {}, {"ok": True})
 
 
@@ -433,7 +433,7 @@ def _run_axis(cfg, rec):
             items.append(("spectral shape evaluated on the documented (inverted: scale/x, scaled: x*scale) axis",
                           core.cross_eq(zreal(np.asarray(matrix, dtype=object)[a, 0]), want), f"basis:axis:{cfg['axis']}"))
         rec.check_all(ctx, items, wit)
-        rec.sample({"axis": cfg["axis"], "entry": str(zreal(np.asarray(matrix, dtype=object)[0, 0]))[:140]})
+        rec.want_sample() and rec.sample({"axis": cfg["axis"], "entry": str(zreal(np.asarray(matrix, dtype=object)[0, 0]))[:140]})
     rec.validate("axis", {}, {"ok": True})
 
 
